@@ -14,6 +14,7 @@
 -/
 import RbModel.Lemmas.Flags
 import RbModel.Lemmas.FlagCarry
+import RbModel.Lemmas.MatchSpanFlags
 
 namespace RbModel.Flags
 
@@ -403,5 +404,297 @@ example : ∃ (b : Buf) (i j : Nat) (x p : Info), i < b.len ∧ b.len ≤ b.info
   simp at h
   subst h
   decide
+
+end RbModel.Flags
+
+
+/-! ### CONCAT soundness at the call sites of the GSUB matching machinery: a rule that DECLINES flags what it inspected
+
+  Same instruments as in Props/C03.lean (`matchInputI`, `chainMatchI`: the model's matchers returning the glyphs they READ;
+  `C03_match_instrumented_same`: nothing new is trusted).  When a contextual rule / a ligature declines, the reason may be any
+  glyph it looked at — changing the text there can make the rule apply — so the span passed to `unsafe_to_concat*` has to cover
+  the reads "up to and including the glyph that made it fail".  Proved below, path by path, for what the code REALLY does:
+
+  * match_input fails in the skipping iterator (`why = iter`: mismatch, or the buffer / the syllable ended): `end_position` is
+    the iterator's `unsafe_to` = index of the stop glyph + 1, the span `[idx, end_position)` covers every read;
+  * the lookahead fails: `end_index` = the lookahead iterator's `unsafe_to`, `[idx, end_index)` covers input and lookahead reads;
+  * the backtrack fails: `unsafe_to_concat_from_outbuffer(start_index, end_index)`, `start_index` = the backward iterator's
+    `unsafe_from`, covers backtrack, input and lookahead reads;
+  * `count > MAX_CONTEXT_LENGTH`: nothing was read;
+  * **match_input fails in the ligature-component rules (`why = ligComp`) — FINDING**: the three `return false` of that block
+    do not write `*end_position`; the callers pass the initial 0, `unsafe_to_concat(idx, 0)` flags NOTHING (chain rules:
+    `end_index = max(0, idx) = idx`, the empty span), although the matcher read `info[idx]`, the glyphs it skipped and the
+    glyph whose lig_id / lig_comp made it decline.  `known_C04_ligcomp_fail_unflagged` is the closed witness; the same font
+    and text violate the redistribution sentence of C04 on the crate (see its comment).  HarfBuzz's match_input has the same
+    three returns.
+
+  The flag statements need PRODUCE_UNSAFE_TO_CONCAT to be requested (otherwise `unsafe_to_concat` is a no-op by design). -/
+namespace RbModel.Flags
+open RbModel RbModel.Gsub
+
+/-- **a context rule that declined flagged what it inspected — except on the ligature-component path** (`apply_context`,
+    Context formats 1 and 2; format 3 inline).  When the rule returns `(c', false)`: match_input failed with reads `R.reads`,
+    the only effect is `unsafe_to_concat(idx, end_position)`; if it failed in the skipping iterator (`iter`) then
+    `idx < end_position ≤ len` and every glyph read — the skipped ones and the one that stopped the matcher — lies in
+    `[idx, end_position)` and carries UNSAFE_TO_CONCAT afterwards (`ConcatFlagged`: the old glyph with `mask |= CONCAT`);
+    if it failed at the length test nothing was read; if it failed in the ligature-component rules (`ligComp`) then
+    `end_position = 0` and NO glyph was flagged (`info` and `out` unchanged) although at least `info[idx]` was read.
+    Every font, rule, buffer; no monotonicity needed. -/
+theorem C04_context_fail_flags_inspected (recurse : Ctx → Nat → M (Ctx × Bool)) (c c' : Ctx) (input : List Nat)
+    (matchFn : Nat → Nat → Bool) (lookups : List Rec)
+    (h : applyContextRule recurse c input matchFn lookups = .ok (c', false))
+    (hidx : c.buf.idx < c.buf.len) (hlen : c.buf.len ≤ c.buf.info.length)
+    (hreq : c.buf.flags &&& Gen.Buf.produceUnsafeToConcat ≠ 0) :
+    ∃ (R : MatchInI),
+      matchInputI c input.length (fun g i => matchFn g (input.getD i 0)) [0, 0, 0, 0] = .ok R ∧ R.r.ok = false ∧
+      c.buf.unsafeToConcat c.buf.idx (some R.r.endPos) = .ok c'.buf ∧ c' = { c with buf := c'.buf } ∧
+      (R.why = .iter → c.buf.idx < R.r.endPos ∧ R.r.endPos ≤ c.buf.len ∧
+        ∀ i, Rd.inp i ∈ R.reads → c.buf.idx ≤ i ∧ i < R.r.endPos ∧
+          ∃ x, c.buf.info[i]? = some x ∧ ConcatFlagged c'.buf.info i x) ∧
+      (R.why = .tooLong → R.reads = []) ∧
+      (R.why = .ligComp → R.r.endPos = 0 ∧ Rd.inp c.buf.idx ∈ R.reads ∧ c'.buf.info = c.buf.info ∧ c'.buf.out = c.buf.out) ∧
+      R.why ≠ .matched ∧ (∀ j, Rd.out j ∉ R.reads) ∧ (∀ j, Rd.lig j ∈ R.reads → j < c.buf.outLen) := by
+  rw [applyContextRule_eq] at h
+  cases hR : matchInputI c input.length (fun g i => matchFn g (input.getD i 0)) [0, 0, 0, 0] with
+  | error e => simp only [hR, bind, Except.bind] at h; cases h
+  | ok R =>
+    simp only [hR, bind, Except.bind, contextFinish] at h
+    cases hok : R.r.ok with
+    | true =>
+      simp only [hok, if_true] at h
+      cases hb : c.buf.unsafeToBreak c.buf.idx (some R.r.endPos) with
+      | error e => simp [hb] at h
+      | ok b =>
+        simp only [hb] at h
+        cases hal : applyLookup recurse { c with buf := b } input.length R.r.positions R.r.endPos lookups with
+        | error e => simp [hal] at h
+        | ok c2 => simp [hal, pure, Except.pure] at h
+    | false =>
+      simp only [hok, Bool.false_eq_true, if_false] at h
+      cases hb : c.buf.unsafeToConcat c.buf.idx (some R.r.endPos) with
+      | error e => simp [hb] at h
+      | ok b =>
+        simp only [hb, pure, Except.pure, Except.ok.injEq, Prod.mk.injEq, and_true] at h
+        subst h
+        exact ⟨R, rfl, hok, hb, rfl, matchFail_flags c _ _ _ R b hR hok hb hidx hlen hreq⟩
+
+-- non-vacuity: the rule "1 (marks ignored) 3" on glyphs 5 | 1 mark 2 3 declines AT glyph 2 (index 3); reads = [1, 2, 3] =
+-- current glyph, skipped mark, stop glyph; all three get UNSAFE_TO_CONCAT
+example : (matchInputI exCtx 1 (fun g i => g == [3].getD i 0) [0, 0, 0, 0]).map MatchInI.view
+    = .ok (false, 4, [.inp 1, .inp 2, .inp 3], .iter) := by rfl
+example : ∃ c', applyContextRule noRecurse exCtx [3] (fun g v => g == v) [] = .ok (c', false) ∧
+    c'.buf.info.map (·.mask) = [1, 3, 3, 3, 1] ∧
+    exCtx.buf.idx < exCtx.buf.len ∧ exCtx.buf.len ≤ exCtx.buf.info.length ∧
+    exCtx.buf.flags &&& Gen.Buf.produceUnsafeToConcat ≠ 0 :=
+  ⟨_, rfl, rfl, by decide, by decide, by decide⟩
+
+/-- **Ligature::apply, a ligature that declines** (`comps` non-empty): the same statement as for a context rule -/
+theorem C04_ligature_fail_flags_inspected (c c' : Ctx) (comps : List Nat) (lig : Nat) (hne : comps.isEmpty = false)
+    (h : ligatureRule c (comps, lig) = .ok (c', false))
+    (hidx : c.buf.idx < c.buf.len) (hlen : c.buf.len ≤ c.buf.info.length)
+    (hreq : c.buf.flags &&& Gen.Buf.produceUnsafeToConcat ≠ 0) :
+    ∃ (R : MatchInI),
+      matchInputI c comps.length (fun g i => g == comps.getD i 0) [0, 0, 0, 0] = .ok R ∧ R.r.ok = false ∧
+      c.buf.unsafeToConcat c.buf.idx (some R.r.endPos) = .ok c'.buf ∧ c' = { c with buf := c'.buf } ∧
+      (R.why = .iter → c.buf.idx < R.r.endPos ∧ R.r.endPos ≤ c.buf.len ∧
+        ∀ i, Rd.inp i ∈ R.reads → c.buf.idx ≤ i ∧ i < R.r.endPos ∧
+          ∃ x, c.buf.info[i]? = some x ∧ ConcatFlagged c'.buf.info i x) ∧
+      (R.why = .tooLong → R.reads = []) ∧
+      (R.why = .ligComp → R.r.endPos = 0 ∧ Rd.inp c.buf.idx ∈ R.reads ∧ c'.buf.info = c.buf.info ∧ c'.buf.out = c.buf.out) ∧
+      R.why ≠ .matched ∧ (∀ j, Rd.out j ∉ R.reads) ∧ (∀ j, Rd.lig j ∈ R.reads → j < c.buf.outLen) := by
+  rw [ligatureRule_eq c (comps, lig) hne] at h
+  cases hR : matchInputI c comps.length (fun g i => g == comps.getD i 0) [0, 0, 0, 0] with
+  | error e => simp only [hR, bind, Except.bind] at h; cases h
+  | ok R =>
+    simp only [hR, bind, Except.bind, ligatureFinish] at h
+    cases hok : R.r.ok with
+    | true =>
+      simp only [hok, Bool.not_true, Bool.false_eq_true, if_false] at h
+      cases hl : ligateInput c (comps.length + 1) R.r.positions R.r.endPos R.r.totalComps lig with
+      | error e => simp [hl] at h
+      | ok c2 => simp [hl, pure, Except.pure] at h
+    | false =>
+      simp only [hok, Bool.not_false, if_true] at h
+      cases hb : c.buf.unsafeToConcat c.buf.idx (some R.r.endPos) with
+      | error e => simp [hb] at h
+      | ok b =>
+        simp only [hb, pure, Except.pure, Except.ok.injEq, Prod.mk.injEq, and_true] at h
+        subst h
+        exact ⟨R, rfl, hok, hb, rfl, matchFail_flags c _ _ _ R b hR hok hb hidx hlen hreq⟩
+
+/-- **FINDING (known, same upstream): a ligature / context rule that declines in the ligature-component rules of match_input
+    flags nothing.**  Buffer x, LIG, M₁, M₂ where LIG is a ligature made earlier in the same run (lig_id 1), M₁ a mark that
+    `ligate_input` attached to its first component (lig_id 1, lig_comp 1), M₂ the same mark glyph unattached; lookup flag
+    IgnoreLigatures, ligature "x M -> 99", PRODUCE_UNSAFE_TO_CONCAT requested.  The matcher reads x, steps over LIG, reaches M₁
+    and declines because M₁ belongs to another ligature — reads `[inp 0, inp 1, inp 2]`, `end_position` = 0 — and the rule
+    returns with every mask unchanged.  With M₁ unattached (second conjunct) the very same rule applies: the decision depended
+    on glyph 2, which is not flagged.
+    On the crate (fontbuild recipe: 7 glyphs, cmap a b c d -> 1 2 3 4, GDEF classes 1:1 2:1 3:1 4:3 5:2 6:1, feature ccmp =
+    [ligature flag 8 cov [2] comps [3] -> 5, ligature flag 4 cov [1] comps [4] -> 6]; request
+    `shape W0 l Latn - 64 0 - - - 61:0,62:1,64:2,63:3,64:4`): the whole text gives 1 5 4 4 with NO glyph flag, so the
+    clusters 0 | 1 | 4 are CONCAT-free segments; the even text `61:0,64:4` gives the single glyph 6 — the redistribution
+    sentence of C04 fails (levels 0 and 1). -/
+theorem known_C04_ligcomp_fail_unflagged :
+    (matchInputI (ligCtx (8 + 33 * 65536)) 1 (fun g i => g == [10].getD i 0) [0, 0, 0, 0]).map MatchInI.view
+      = .ok (false, 0, [.inp 0, .inp 1, .inp 2], .ligComp) ∧
+    (ligatureRule (ligCtx (8 + 33 * 65536)) ([10], 99)).map (fun r => (r.1.buf.info.map (·.mask), r.2))
+      = .ok ([1, 1, 1, 1], false) ∧
+    (ligatureRule (ligCtx 8) ([10], 99)).map (fun r => ((r.1.buf.outArr.take r.1.buf.outLen).map (·.gid), r.2))
+      = .ok ([99, 20], true) ∧
+    (ligCtx (8 + 33 * 65536)).buf.flags &&& Gen.Buf.produceUnsafeToConcat ≠ 0 :=
+  ⟨rfl, rfl, rfl, by decide⟩
+
+-- non-vacuity of C04_ligature_fail_flags_inspected, on its ligComp branch
+example : ∃ c', ligatureRule (ligCtx (8 + 33 * 65536)) ([10], 99) = .ok (c', false) ∧
+    (ligCtx (8 + 33 * 65536)).buf.idx < (ligCtx (8 + 33 * 65536)).buf.len ∧
+    (ligCtx (8 + 33 * 65536)).buf.len ≤ (ligCtx (8 + 33 * 65536)).buf.info.length :=
+  ⟨_, rfl, by decide, by decide⟩
+
+/-- **a chain rule that declined flagged what it inspected — except on the ligature-component path** (`apply_chain_context`,
+    ChainContext formats 1-3; forward GSUB pass: `have_output`).  When the rule returns `(c', false)` the matching phase
+    `chainMatchI` ended with one of three verdicts:
+    * `inputFail` / `aheadFail`: the only effect is `unsafe_to_concat(idx, end_index)` with `end_index = max(end_position, idx)`
+      resp. the lookahead iterator's `unsafe_to`; unless match_input failed in the ligature-component rules, every glyph read by
+      match_input and match_lookahead lies in `[idx, end_index)` and carries UNSAFE_TO_CONCAT afterwards; on the
+      ligature-component path `end_index = idx`: the empty span, nothing flagged;
+    * `backFail`: the only effect is `unsafe_to_concat_from_outbuffer(start_index, end_index)`; every glyph read by match_input
+      and match_lookahead lies in `info[idx, end_index)`, every glyph read by match_backtrack in `out[start_index, out_len)`, and
+      all of them carry UNSAFE_TO_CONCAT afterwards (both output modes).
+    Every font, rule, well-formed buffer; no monotonicity needed. -/
+theorem C04_chain_fail_flags_inspected (recurse : Ctx → Nat → M (Ctx × Bool)) (c c' : Ctx) (nBack nIn nAhead : Nat)
+    (fBack fIn fAhead : Nat → Nat → Bool) (lookups : List Rec)
+    (h : applyChainRule recurse c nBack nIn nAhead fBack fIn fAhead lookups = .ok (c', false))
+    (hidx : c.buf.idx < c.buf.len) (hwf : Buf.WF c.buf) (hho : c.buf.haveOutput = true)
+    (hreq : c.buf.flags &&& Gen.Buf.produceUnsafeToConcat ≠ 0) :
+    ∃ (m : ChainM),
+      chainMatchI c nBack nIn nAhead fBack fIn fAhead = .ok m ∧ m.verdict ≠ .matched ∧ c' = { c with buf := c'.buf } ∧
+      c.buf.idx ≤ m.endIndex ∧ m.endIndex ≤ c.buf.len ∧
+      (m.verdict = .inputFail ∨ m.verdict = .aheadFail →
+        c.buf.unsafeToConcat c.buf.idx (some m.endIndex) = .ok c'.buf ∧
+        (¬ (m.verdict = .inputFail ∧ m.R.why = .ligComp) →
+          ∀ i, Rd.inp i ∈ m.reads → c.buf.idx ≤ i ∧ i < m.endIndex ∧
+            ∃ x, c.buf.info[i]? = some x ∧ ConcatFlagged c'.buf.info i x) ∧
+        (m.verdict = .inputFail ∧ m.R.why = .ligComp →
+          m.endIndex = c.buf.idx ∧ c'.buf.info = c.buf.info ∧ c'.buf.out = c.buf.out)) ∧
+      (m.verdict = .backFail →
+        m.startIndex ≤ c.buf.outLen ∧
+        c.buf.unsafeToConcatFromOut m.startIndex (some m.endIndex) = .ok c'.buf ∧
+        (∀ i, Rd.inp i ∈ m.reads → c.buf.idx ≤ i ∧ i < m.endIndex ∧
+            ∃ x, c.buf.info[i]? = some x ∧ ConcatFlagged c'.buf.info i x) ∧
+        (∀ j, Rd.out j ∈ m.reads → m.startIndex ≤ j ∧ j < c.buf.outLen ∧
+            ∃ x, c.buf.outArr[j]? = some x ∧ ConcatFlagged c'.buf.outArr j x)) ∧
+      (∀ j, Rd.lig j ∈ m.reads → j < c.buf.outLen) := by
+  rw [applyChainRule_eq] at h
+  cases hm : chainMatchI c nBack nIn nAhead fBack fIn fAhead with
+  | error e => simp only [hm, bind, Except.bind] at h; cases h
+  | ok m =>
+    obtain ⟨s0, s1, s3, s4, s5, s6, s7⟩ := chainMatchI_span c _ _ _ _ _ _ m hm hidx
+    simp only [hm, bind, Except.bind, chainFinish] at h
+    have hbl : backtrackLen c.buf = c.buf.outLen := by simp [backtrackLen, hho]
+    have hlig : ∀ j, Rd.lig j ∈ m.reads → j < c.buf.outLen := by
+      intro j hj
+      rcases s7 _ hj with ⟨i', a1, _⟩ | ⟨j', a1, _⟩ | ⟨j', a1, a2⟩
+      · cases a1
+      · cases a1
+      · cases a1; exact a2
+    have hreq' : ¬ (c.buf.flags &&& Gen.Buf.produceUnsafeToConcat == 0) = true := by simpa using hreq
+    -- the two one-sided failure paths
+    have oneSided : (m.verdict = .inputFail ∨ m.verdict = .aheadFail) →
+        ∀ b, c.buf.unsafeToConcat c.buf.idx (some m.endIndex) = .ok b →
+        (¬ (m.verdict = .inputFail ∧ m.R.why = .ligComp) →
+          ∀ i, Rd.inp i ∈ m.reads → c.buf.idx ≤ i ∧ i < m.endIndex ∧
+            ∃ x, c.buf.info[i]? = some x ∧ ConcatFlagged b.info i x) ∧
+        (m.verdict = .inputFail ∧ m.R.why = .ligComp →
+          m.endIndex = c.buf.idx ∧ b.info = c.buf.info ∧ b.out = c.buf.out) := by
+      intro _ b hb
+      obtain ⟨b', hb', hu, hbb⟩ := unsafeToConcat_span c.buf c.buf.idx m.endIndex hreq s3 s4 hwf.len_le
+      rw [hb] at hb'; cases hb'
+      constructor
+      · intro hn i hi
+        rcases s7 _ hi with ⟨i', a1, a2, a3, a4⟩ | ⟨j, a1, _⟩ | ⟨j, a1, _⟩
+        · cases a1
+          have hlt' := a4 hn
+          have hil : i < c.buf.info.length := by have := hwf.len_le; omega
+          exact ⟨a2, hlt', _, List.getElem?_eq_getElem hil, ConcatFlagged.of_upd hu (List.getElem?_eq_getElem hil) a2 hlt'⟩
+        · cases a1
+        · cases a1
+      · intro ⟨hv, hw⟩
+        -- end_index = max 0 idx = idx: the span is empty
+        have he : m.endIndex = c.buf.idx := by
+          unfold chainMatchI at hm
+          rw [s0] at hm
+          have hok := s1.mp hv
+          simp only [bind, Except.bind, hok, Bool.not_false, if_true, pure, Except.pure, Except.ok.injEq] at hm
+          obtain ⟨_, _, r3, _, _⟩ := matchInputI_span c _ _ _ m.R s0 hidx
+          rw [← hm]
+          simp only
+          rw [r3 hw]; simp
+        rw [he] at hu
+        refine ⟨he, Upd.eq_of_empty hu, ?_⟩
+        rw [hbb]
+    cases hv : m.verdict with
+    | inputFail | aheadFail =>
+      simp only [hv] at h
+      cases hb : c.buf.unsafeToConcat c.buf.idx (some m.endIndex) with
+      | error e => simp [hb] at h
+      | ok b =>
+        simp only [hb, pure, Except.pure, Except.ok.injEq, Prod.mk.injEq, and_true] at h
+        subst h
+        refine ⟨m, rfl, by simp [hv], rfl, s3, s4, fun hvv => ⟨hb, oneSided hvv b hb⟩, fun hvv => ?_, hlig⟩
+        rw [hv] at hvv; cases hvv
+    | backFail =>
+      simp only [hv] at h
+      have hst : m.startIndex ≤ c.buf.outLen := by rw [← hbl]; exact s6 (Or.inl hv)
+      obtain ⟨b', o1, hb', U1, U2, hout, hbb⟩ :=
+        setGlyphFlags_plain_out c.buf Flag.UNSAFE_TO_CONCAT m.startIndex m.endIndex hho hst hwf.out_cap s3 s4 hwf.len_le
+      have hcall : c.buf.unsafeToConcatFromOut m.startIndex (some m.endIndex) = .ok b' := by
+        unfold Buf.unsafeToConcatFromOut
+        rw [if_neg hreq', hb']
+      have hsep : b'.sepOut = c.buf.sepOut := by rw [hbb]
+      obtain ⟨t1, t2⟩ := twoSided_at U1 U2 hout hsep hwf.nosep_ok
+      simp only [hcall, pure, Except.pure, Except.ok.injEq, Prod.mk.injEq, and_true] at h
+      subst h
+      refine ⟨m, rfl, by simp [hv], rfl, s3, s4, fun hvv => ?_, fun _ => ⟨hst, hcall, ?_, ?_⟩, hlig⟩
+      · rw [hv] at hvv; rcases hvv with hvv | hvv <;> cases hvv
+      · intro i hi
+        rcases s7 _ hi with ⟨i', a1, a2, a3, a4⟩ | ⟨j, a1, _⟩ | ⟨j, a1, _⟩
+        · cases a1
+          have hlt' := a4 (by simp [hv])
+          have hil : i < c.buf.info.length := by have := hwf.len_le; omega
+          exact ⟨a2, hlt', _, List.getElem?_eq_getElem hil,
+            ConcatFlagged.of_eq (t1 i _ a2 hlt' (List.getElem?_eq_getElem hil))⟩
+        · cases a1
+        · cases a1
+      · intro j hj
+        rcases s7 _ hj with ⟨i', a1, _⟩ | ⟨j', a1, _, a3, a4⟩ | ⟨j', a1, _⟩
+        · cases a1
+        · cases a1
+          rw [hbl] at a4
+          have hjl : j < c.buf.outArr.length := by have := hwf.out_cap; omega
+          exact ⟨a3, a4, _, List.getElem?_eq_getElem hjl,
+            ConcatFlagged.of_eq (t2 j _ a3 a4 (List.getElem?_eq_getElem hjl))⟩
+        · cases a1
+    | matched =>
+      simp only [hv] at h
+      cases hb : c.buf.unsafeToBreakFromOut m.startIndex (some m.endIndex) with
+      | error e => simp [hb] at h
+      | ok b =>
+        simp only [hb] at h
+        cases hal : applyLookup recurse { c with buf := b } nIn m.R.r.positions m.R.r.endPos lookups with
+        | error e => simp [hal] at h
+        | ok c2 => simp [hal, pure, Except.pure] at h
+
+-- non-vacuity: backtrack mismatch (9 wanted, 5 found): verdict backFail, span out[0, 1) ++ info[1, 5), reads = input
+-- [1, 2, 3] + lookahead [4] + backtrack out[0] (the glyph that made it fail); the whole buffer gets UNSAFE_TO_CONCAT
+example : (chainMatchI exCtx 1 1 1 (fun g _ => g == 9) (fun g _ => g == 2) (fun g _ => g == 3)).map ChainM.view
+    = .ok (.backFail, 0, 5, [.inp 1, .inp 2, .inp 3, .inp 4, .out 0]) := by rfl
+-- lookahead mismatch: reads = input [1, 2, 3] + the lookahead glyph that made it fail [4]
+example : (chainMatchI exCtx 1 1 1 (fun g _ => g == 5) (fun g _ => g == 2) (fun g _ => g == 9)).map ChainM.view
+    = .ok (.aheadFail, 0, 5, [.inp 1, .inp 2, .inp 3, .inp 4]) := by rfl
+example : ∃ c', applyChainRule noRecurse exCtx 1 1 1 (fun g _ => g == 9) (fun g _ => g == 2) (fun g _ => g == 3) []
+      = .ok (c', false) ∧ c'.buf.info.map (·.mask) = [3, 3, 3, 3, 3] ∧
+    exCtx.buf.idx < exCtx.buf.len ∧ Buf.WF exCtx.buf ∧ exCtx.buf.haveOutput = true ∧
+    exCtx.buf.flags &&& Gen.Buf.produceUnsafeToConcat ≠ 0 :=
+  ⟨_, rfl, rfl, by decide, ⟨by decide, by decide, by simp [exCtx], by decide⟩, rfl, by decide⟩
 
 end RbModel.Flags
